@@ -57,15 +57,28 @@ def gen_case(g, tier, idx):
         F = [[(1.0 if i == j else (0.5 if j == i + 1 else 0.0)) for j in range(n)] for i in range(n)]
     Q = _spd(g, n, 2)
     H = g.mat(m, n, -1.5, 1.5)
-    if sub == m or corr_kind != 2:
-        R = _spd(g, m, 2)
-    else:   # serial UKF with sub-blocks: block-diagonal noise
-        R = [[0.0] * m for _ in range(m)]
+    def new_R():
+        if sub == m or corr_kind != 2:
+            return _spd(g, m, 2)
+        Rb = [[0.0] * m for _ in range(m)]      # serial UKF with sub-blocks: block-diagonal noise
         for b0 in range(0, m, sub):
             B = _spd(g, sub, 1)
             for i in range(sub):
                 for j in range(sub):
-                    R[b0 + i][b0 + j] = B[i][j]
+                    Rb[b0 + i][b0 + j] = B[i][j]
+        return Rb
+
+    def new_F():
+        if r.random() < 0.3:
+            return [[(1.0 if i == j else (0.5 if j == i + 1 else 0.0)) for j in range(n)] for i in range(n)]
+        return g.mat(n, n, -1.0, 1.0)
+
+    def new_trans():
+        return {"A": g.mat(n, n, -1.0, 1.0), "b": g.vec(n, -1, 1),
+                "c": (0.0 if (style == "zeros" and r.random() < 0.5) else r.uniform(0.05, 3.0))}
+    R = new_R()
+    exo = r.random() < 0.4
+    vary = r.random() < 0.75          # models change from step to step (same sizes)
     cond_hi = 5.5 if style == "illcond" else 2.5
     if style == "samebelief":
         mu = g.vec(n, -2, 2)
@@ -83,8 +96,8 @@ def gen_case(g, tier, idx):
     if style == "wna":
         trans = {"kind": 1, "T": r.choice([0.5, 1.0, 2.0]), "q": r.choice([4.0, 10.0, 30.0])}
     else:
-        trans = {"kind": 0, "A": g.mat(n, n, -1.0, 1.0), "b": g.vec(n, -1, 1),
-                 "c": (0.0 if (style == "zeros" and r.random() < 0.5) else r.uniform(0.05, 3.0))}
+        trans = {"kind": 0}
+    cur_tr = new_trans()
     # history
     nsteps = r.randint(3, 6) if style != "tiny" else r.randint(1, 4)
     pat = r.choice(["alt-P", "alt-C", "random"])
@@ -106,7 +119,23 @@ def gen_case(g, tier, idx):
     for s, kd in enumerate(kinds):
         skip = (r.random() < 0.12) and not (style == "samebelief" and s == 0)
         st = {"kind": kd, "skip": skip}
+        if kd == "P":
+            if vary and r.random() < 0.7:
+                F, Q = new_F(), _spd(g, n, 2)
+            st["F"], st["Q"] = F, Q
+            if exo:
+                st["exo_skip"] = r.random() < 0.3
+                st["G"] = g.mat(n, n, -0.5, 0.5) if r.random() < 0.7 else [[0.0] * n for _ in range(n)]
+                st["g"] = g.vec(n, -1.5, 1.5)
         if kd == "C":
+            if vary and r.random() < 0.7:
+                H, R = g.mat(m, n, -1.5, 1.5), new_R()
+            if vary and r.random() < 0.7:
+                cur_tr = new_trans()
+            st["H"], st["R"] = H, R
+            st["inplace"] = r.random() < 0.15
+            if trans["kind"] == 0:
+                st["trans"] = cur_tr
             xs = g.vec(n, -2, 2)
             st["y"] = [sum(H[i][j] * xs[j] for j in range(n)) + r.uniform(-0.5, 0.5) for i in range(m)]
             st["valid"] = not (r.random() < 0.18) or (style == "samebelief" and s == 0)
@@ -124,7 +153,7 @@ def gen_case(g, tier, idx):
                 st["lik"] = {"kind": 1, "c": [r.uniform(0.05, 3.0) for _ in range(k)], "a": g.vec(n, -2, 2)}
         steps.append(st)
     meta = dict(style=style, n=n, k=k, m=m, seed=seed, pred_kind=pred_kind, corr_kind=corr_kind,
-                alpha=alpha, beta=beta, kappa=kappa, sub=sub, F=F, Q=Q, H=H, R=R, trans=trans,
+                alpha=alpha, beta=beta, kappa=kappa, sub=sub, exo=exo, trans=trans,
                 states=states, means=means, covs=covs, weights=weights, steps=steps)
     return harness_line(meta), meta
 
@@ -141,18 +170,22 @@ def harness_line(M):
     n, k, m = M["n"], M["k"], M["m"]
     t = ["gpfh", str(n), str(k), str(m), str(M["seed"]), str(M["pred_kind"]), str(M["corr_kind"]),
          hexd(M["alpha"]), hexd(M["beta"]), hexd(M["kappa"]), str(M["sub"])]
-    t += vlib.fmt_mat_cm(M["F"]) + vlib.fmt_mat_cm(M["Q"]) + vlib.fmt_mat_cm(M["H"]) + vlib.fmt_mat_cm(M["R"])
     tr = M["trans"]
-    if tr["kind"] == 0:
-        t += ["0"] + vlib.fmt_mat_cm(tr["A"]) + [hexd(v) for v in tr["b"]] + [hexd(tr["c"])]
-    else:
-        t += ["1", hexd(tr["T"]), hexd(tr["q"])]
+    t += ["1" if M["exo"] else "0"]
+    t += ["0"] if tr["kind"] == 0 else ["1", hexd(tr["T"]), hexd(tr["q"])]
     t += _set_tokens(n, k, M["states"], M["means"], M["covs"], M["weights"])
     t.append(str(len(M["steps"])))
     for st in M["steps"]:
         t += [st["kind"], "1" if st["skip"] else "0"]
+        if st["kind"] == "P":
+            t += vlib.fmt_mat_cm(st["F"]) + vlib.fmt_mat_cm(st["Q"])
+            if M["exo"]:
+                t += ["1" if st["exo_skip"] else "0"] + vlib.fmt_mat_cm(st["G"]) + [hexd(v) for v in st["g"]]
         if st["kind"] == "C":
-            t += ["1" if st.get("move") else "0"]
+            t += ["1" if st.get("move") else "0", "1" if st.get("inplace") else "0"]
+            t += vlib.fmt_mat_cm(st["H"]) + vlib.fmt_mat_cm(st["R"])
+            if tr["kind"] == 0:
+                t += vlib.fmt_mat_cm(st["trans"]["A"]) + [hexd(v) for v in st["trans"]["b"]] + [hexd(st["trans"]["c"])]
             t += [hexd(v) for v in st["y"]] + ["1" if st["valid"] else "0"]
             lk = st["lik"]
             if lk["kind"] == 0:
@@ -430,10 +463,10 @@ def driver_line(M, H_, wit, zarr):
             elif lk["kind"] == 1:
                 t += ["1"] + [hexd(v) for v in lk["c"]] + [hexd(v) for v in lk["a"]]
             else:
-                t += ["2", hexd(lk["scale"])] + vlib.fmt_mat_cm(M["H"]) + vlib.fmt_mat_cm(M["R"]) + [hexd(v) for v in st["y"]]
+                t += ["2", hexd(lk["scale"])] + vlib.fmt_mat_cm(st["H"]) + vlib.fmt_mat_cm(st["R"]) + [hexd(v) for v in st["y"]]
             tr = M["trans"]
             if tr["kind"] == 0:
-                t += ["0"] + vlib.fmt_mat_cm(tr["A"]) + [hexd(v) for v in tr["b"]] + [hexd(tr["c"])]
+                t += ["0"] + vlib.fmt_mat_cm(st["trans"]["A"]) + [hexd(v) for v in st["trans"]["b"]] + [hexd(st["trans"]["c"])]
             else:   # the shipped model's own F and Q (their closed form is property C16)
                 t += ["1"] + vlib.fmt_mat_cm(H_["wnaF"]) + vlib.fmt_mat_cm(H_["wnaQ"])
     return " ".join(t)
@@ -496,10 +529,6 @@ def analyse(M, Hh, acc):
         if dF > 0 or dQ > 8 * EPS:
             acc.hit("note:wna-F-or-Q-not-closed-form (property C16, not decided here)")
         Ff = [[Fraction(x) for x in row] for row in F]
-    else:
-        Af = [[Fraction(x) for x in row] for row in tr["A"]]
-        bf = [Fraction(x) for x in tr["b"]]
-    Hf = [[Fraction(x) for x in row] for row in M["H"]]
     for s, (st, hs) in enumerate(zip(M["steps"], Hh["steps"])):
         cur = hs["set"]
         tag = "step %d (%s%s)" % (s, st["kind"], ",skip" if st["skip"] else "")
@@ -524,6 +553,8 @@ def analyse(M, Hh, acc):
             return None, None, None
         if st["kind"] == "P":
             acc.hit("pred-wrapped:%s" % ["KF", "UKF"][M["pred_kind"]])
+            if M["exo"]:
+                acc.hit("prediction-with-exogenous-model:" + ("skipped" if (st["exo_skip"] or st["skip"]) else "active"))
             # ---- clause: prediction leaves positions and weights untouched
             if cur.states != prev.states:
                 prop.append(("predict-moved-state", "%s: prediction changed particle positions" % tag))
@@ -532,6 +563,18 @@ def analyse(M, Hh, acc):
             prev = cur
             continue
         acc.hit("corr-wrapped:%s" % ["KF", "UKF", "SUKF"][M["corr_kind"]])
+        Hf = [[Fraction(x) for x in row] for row in st["H"]]
+        if tr["kind"] == 0:
+            Af = [[Fraction(x) for x in row] for row in st["trans"]["A"]]
+            bf = [Fraction(x) for x in st["trans"]["b"]]
+        prevC = next((q for q in reversed(M["steps"][:s]) if q["kind"] == "C"), None)
+        if prevC is not None:
+            if prevC["R"] != st["R"] or prevC["H"] != st["H"]:
+                acc.hit("measurement-model-changed-between-corrections" + (" (shipped GaussianLikelihood)" if st["lik"]["kind"] == 2 else ""))
+            if tr["kind"] == 0 and prevC["trans"] != st["trans"]:
+                acc.hit("transition-model-changed-between-corrections")
+        if st.get("inplace"):
+            acc.hit("correction-in-place (same object as input and output)")
         acc.hit("lik-kind:%d" % st["lik"]["kind"])
         acc.hit("trans-kind:%d" % tr["kind"])
         if st.get("move"):
@@ -621,7 +664,7 @@ def analyse(M, Hh, acc):
                     prop.append(("likelihood-value", "%s: particle %d: likelihood %.17g is not the likelihood of the new position (%.17g)" % (tag, i, l, want)))
             else:
                 nu = [fr(st["y"][a]) - sum(Hf[a][b] * x[b] for b in range(n)) for a in range(m)]
-                gl = gauss_logpdf_exact(nu, M["R"])
+                gl = gauss_logpdf_exact(nu, st["R"])
                 if gl[0] < UNDERFLOW_LOG:
                     # exp() returns at most DBL_MIN there, so log(l + eps) moves by at most log(1 + scale)
                     acc.hit("density-underflow:likelihood"); slack += math.log(1.0 + max(lk["scale"], 1.0)) + 0.01
@@ -629,7 +672,7 @@ def analyse(M, Hh, acc):
                         prop.append(("gaussian-likelihood", "%s: particle %d GaussianLikelihood %.17g where scale*N(y;Hx,R) underflows" % (tag, i, l)))
                 else:
                     want = lk["scale"] * math.exp(gl[0])
-                    sc = max([abs(float(a)) for a in x] + [1.0]) * max(vlib.fnorm(M["H"]), 1.0) * n + max(abs(a) for a in st["y"])
+                    sc = max([abs(float(a)) for a in x] + [1.0]) * max(vlib.fnorm(st["H"]), 1.0) * n + max(abs(a) for a in st["y"])
                     gradl = 2 * m * vlib.fnorm(gl[3]) * m * max([abs(float(a)) for a in nu] + [1e-300]) * 8 * n * EPS * sc
                     tl = 256 * m * EPS * gl[2] * (float(gl[1]) + 1) + gradl
                     acc.mx("gauss_lik_err_over_tol", abs(l - want) / (tl * abs(want)))
@@ -640,8 +683,8 @@ def analyse(M, Hh, acc):
             gradT = float(n)       # bound of |d log t / d x| (per unit of position error), for the model comparison
             if tr["kind"] == 0:
                 d = [x[a] - sum(Af[a][b] * xp[b] for b in range(n)) - bf[a] for a in range(n)]
-                want = float(fr(tr["c"]) / (1 + sum(a * a for a in d)))
-                sc = max([abs(float(a)) for a in x] + [abs(float(a)) for a in xp] + [1.0]) * max(vlib.fnorm(tr["A"]), 1.0) * n + 1
+                want = float(fr(st["trans"]["c"]) / (1 + sum(a * a for a in d)))
+                sc = max([abs(float(a)) for a in x] + [abs(float(a)) for a in xp] + [1.0]) * max(vlib.fnorm(st["trans"]["A"]), 1.0) * n + 1
                 tt = 64 * n * EPS * (1 + sc * sc)
                 if abs(tv - want) > tt * abs(want):
                     prop.append(("transition-value", "%s: particle %d transition density %.17g, t(prev_i, new_i) = %.17g" % (tag, i, tv, want)))
